@@ -49,7 +49,9 @@ META = {
              'cases; non-trivial = the body has at least one step or raises'),
     'trusted': ['SQLite transaction semantics (a rolled-back / never committed transaction leaves the committed rows unchanged)',
                 'CPython reference counting: dropping the traceback of the escaped BaseException runs Transaction.__del__'],
-    'modelled': ['a BaseException that is not an Exception (KeyboardInterrupt, SystemExit, GeneratorExit) is not caught by '
+    'modelled': ['the cache flag of the connection and the moment the class was declared are not in the model (it has no cache): the same '
+                 'model answers must hold in all four variants',
+                 'a BaseException that is not an Exception (KeyboardInterrupt, SystemExit, GeneratorExit) is not caught by '
                  'doInTransaction: the transaction is rolled back by Transaction.__del__ -> rollback() when the traceback\'s reference '
                  'dies (refcounting); modelled as an explicit `collect` step, observed by dropping the exception in the harness',
                  'nested doInTransaction (binding already a Transaction) is outside the model',
@@ -70,6 +72,7 @@ INITIAL = {1: 10, 2: 20}
 # s: `list(Cls.select())` inside the body (a read through the transaction)
 ALPHABET = ['c3', 'c1', 'u1', 'd1', 'u2', 'U1', 'D2', 's']
 K_STALE_RB = 'C08:stale-after-rollback:preloaded-instance-assigned-in-body'
+K_STALE_NC = 'C08:stale-after-commit:cache-false-tx-instance-collected'
 DUP_ID, NF_ID = 1000001, 1000002
 _env = {}
 
@@ -129,7 +132,8 @@ class Worker(threading.Thread):
         return True
 
     def do_setup(self):
-        self.e['cls'].createTable(connection=self.e['conns'][0])
+        for cls in self.e['classes'].values():
+            cls.createTable(connection=self.e['conns'][0])
         return True
 
     def do_open_raw(self):
@@ -326,33 +330,63 @@ def env():
     atexit.register(shutil.rmtree, d, True)
     path = os.path.join(d, 'c08.db')
     hub = ConnectionHub()
-    cls = type('C08Row', (SQLObject,), {'_connection': hub, 'v': IntCol()})
-    conns = [sqlo.file_conn(path, timeout=0) for _ in range(3)]
-    hub.processConnection = conns[0]
-    _env.update(dir=d, path=path, hub=hub, cls=cls, conns=conns, table=cls.sqlmeta.table)
+    # declared while the hub is still unbound ...
+    cls_early = type('C08Row', (SQLObject,), {'_connection': hub, 'v': IntCol()})
+    base = type('C08Base', (SQLObject,), {'_connection': hub})
+    conns_by = {'1': [sqlo.file_conn(path, timeout=0) for _ in range(3)],
+                '0': [sqlo.file_conn(path, timeout=0, cache=False) for _ in range(3)]}
+    hub.processConnection = conns_by['1'][0]
+    # ... and declared after the application has connected ("connect first, import the models later")
+    # it declares no connection of its own: it gets the hub from its base class
+    cls_late = type('C08Late', (base,), {'v': IntCol()})
+    _env.update(dir=d, path=path, hub=hub, classes={'e': cls_early, 'l': cls_late}, conns_by=conns_by,
+                cls=cls_early, conns=conns_by['1'], table=cls_early.sqlmeta.table, variant=('1', 'e'))
     workers = [Worker(t, _env) for t in range(3)]
     for w in workers:
         w.start()
     workers[0].call('setup')
-    workers[2].call('bind', conns[2])
+    workers[2].call('bind', conns_by['1'][2])
     for w in workers:
         w.call('open_raw')
     raw = sqlite3.connect(path, isolation_level=None, timeout=0)
-    _env.update(workers=workers, raw=raw, ident=workers[1].call('ident'))
+    _env.update(workers=workers, raw=raw, ident=workers[1].call('ident'), baseline_by={}, made_by={})
     # warm-up: the calling thread uses connection 1 (T, TP) and connection 0 (P, S): one empty transaction on each, so that
     # every pool holds the thread's low-level connection before the baseline is taken
-    for cfg in CONFIGS:
-        configure(_env, cfg, True)
-        workers[1].call('run', [], None, None)
-        workers[1].call('collect')
-    workers[2].pre = {}
-    workers[2].call('run', [], None, None)      # the second thread of the overlapping calls warms up its own connection
-    workers[2].call('collect')
+    for cache in ('1', '0'):
+        _env['conns'] = conns_by[cache]
+        workers[2].call('bind', conns_by[cache][2])
+        for cfg in CONFIGS:
+            configure(_env, cfg, True)
+            workers[1].pre = {}
+            workers[1].call('run', [], None, None)
+            workers[1].call('collect')
+        workers[2].pre = {}
+        workers[2].call('run', [], None, None)      # the second thread of the overlapping calls warms up its own connection
+        workers[2].call('collect')
     gc.collect()
     gc.freeze()
-    _env['baseline'] = [len(c._pool) for c in conns]
-    _env['made'] = [c._connectionCount for c in conns]
+    for cache in ('1', '0'):
+        _env['baseline_by'][cache] = [len(c._pool) for c in conns_by[cache]]
+        _env['made_by'][cache] = [c._connectionCount for c in conns_by[cache]]
+    _env['variant'] = None
+    select_variant(_env, '1', 'e')
     return _env
+
+
+def select_variant(e, cache, which):
+    """connections with cache=True / cache=False, and the class declared before / after the hub was bound"""
+    if e.get('variant') == (cache, which):
+        return
+    if e.get('variant') is not None:
+        e['made_by'][e['variant'][0]] = e['made']
+    e['variant'] = (cache, which)
+    e['conns'] = e['conns_by'][cache]
+    e['cls'] = e['classes'][which]
+    e['table'] = e['cls'].sqlmeta.table
+    e['baseline'] = e['baseline_by'][cache]
+    e['made'] = e['made_by'][cache]
+    e['workers'][2].call('bind', e['conns'][2])
+    e['configured'] = None
 
 
 def reset_db(e):
@@ -423,13 +457,16 @@ def gen_cases(ctx):
     thorough = ctx.tier == 'thorough'
     combos = [(cfg, ac) for cfg in CONFIGS for ac, _ in AUTOCOMMITS]
     modes = ['get', 'select']
+    variants = [(cache, which) for cache in '10' for which in 'el']
     cases = []
     n = 0
     import glob
     import json
     for path in sorted(glob.glob(os.path.join(os.path.dirname(os.path.dirname(os.path.abspath(__file__))), 'corpus', 'C08', '*.json'))):
         for c in json.load(open(path)).get('cases', []):
-            cases.append((c['cfg'], c['ac'], c.get('mode', 'get'), tuple(c['word']), c['raise_after'], c['kind']))
+            word = tuple(c['word']) if 'word' in c else tuple('c%d' % i for i in range(10, 10 + c['creates']))
+            cases.append((c['cfg'], c['ac'], c.get('mode', 'get'), word, c['raise_after'], c['kind'],
+                          (c.get('cache', '1'), c.get('declared', 'e'))))
     for ln in range(0, (5 if thorough else 4) + 1):
         for word in itertools.product(ALPHABET, repeat=ln):
             points = [(None, None)] + [(k, kind) for k in range(ln + 1) for kind in 'EK']
@@ -446,11 +483,12 @@ def gen_cases(ctx):
                     if hash_word(word) % 8 != 0:
                         continue
                     sel = [(combos[n % 12], modes[(n // 12) % 2])]
-                for (cfg, ac), mode in sel:
-                    cases.append((cfg, ac, mode, word, ra, kind))
-    # grouped by configuration so that the hub is re-bound rarely
+                for i, ((cfg, ac), mode) in enumerate(sel):
+                    for var in (variants if ln <= 1 else [variants[(n + i) % 4]]):
+                        cases.append((cfg, ac, mode, word, ra, kind, var))
+    # grouped by variant and configuration so that the hub is re-bound rarely
     order = {c: i for i, c in enumerate(combos)}
-    cases.sort(key=lambda c: order[(c[0], c[1])])
+    cases.sort(key=lambda c: (c[6], order[(c[0], c[1])]))
     return cases
 
 
@@ -481,27 +519,32 @@ def pool_mode(e, cfg):
     return ll.isolation_level is None
 
 
-_known_seen = [0]
+_known_seen = {}
 
 
-def known_once(ctx, what, desc):
-    """the recorded finding is reported once per run (the framework keeps a bounded list of failures)"""
-    _known_seen[0] += 1
-    if _known_seen[0] == 1:
-        ctx.oracle_fail(K_STALE_RB, what, desc)
+def known_once(ctx, what, desc, key=None):
+    """a recorded finding is reported once per run (the framework keeps a bounded list of failures)"""
+    key = key or K_STALE_RB
+    _known_seen[key] = _known_seen.get(key, 0) + 1
+    if _known_seen[key] == 1:
+        ctx.oracle_fail(key, what, desc)
 
 
 def run_case(ctx, e, case, idx, model_out):
-    cfg, ac, mode, word, ra, kind = case
+    cfg, ac, mode, word, ra, kind, var = case
+    select_variant(e, *var)
     steps = concrete_steps(word)
     exc_id = 5 + idx % 90
     exc_obj = None
     if ra is not None:
         classes = E_CLASSES if kind == 'E' else K_CLASSES
         exc_obj = classes[idx % len(classes)]('case %d' % idx)
-    desc = {'cfg': cfg, 'ac': ac, 'preloaded_by': mode, 'steps': [step_token(s) for s in steps],
+    desc = {'cfg': cfg, 'ac': ac, 'cache': var[0], 'declared': var[1], 'preloaded_by': mode,
+            'steps': [step_token(s) for s in steps] if len(steps) <= 12 else None, 'creates': len(steps) if len(steps) > 12 else None,
             'raise_after': ra, 'exception': type(exc_obj).__name__ if exc_obj is not None else None}
-    key = 'C08:%s:ac%s:%s:%s:%s' % (cfg, ac, mode, ','.join(word) or '-', '-' if ra is None else '%d%s' % (ra, kind))
+    key = 'C08:%s:ac%s:cache%s:%s:%s:%s:%s' % (cfg, ac, var[0], {'e': 'early', 'l': 'late'}[var[1]], mode,
+                                                (','.join(word) or '-') if len(word) <= 12 else '%dcreates' % len(word),
+                                                '-' if ra is None else '%d%s' % (ra, kind))
     if e.get('configured') != (cfg, ac):
         configure(e, cfg, dict(AUTOCOMMITS)[ac])
         e['configured'] = (cfg, ac)
@@ -573,9 +616,15 @@ def run_case(ctx, e, case, idx, model_out):
     def assigned(k):
         vals = [vv for (op, kk, vv) in steps[:executed] if op == 'U' and kk == k]
         return vals[-1] if vals else None
+    def collected(k):
+        # cache=False: the instance the body fetched with get() and did not keep is gone before commit looks for it
+        return var[0] == '0' and want_exc is None and any(op == 'u' and kk == k for (op, kk, _) in steps[:executed])
     for k, v in sorted(held.items()):
         if v != rows2.get(k):
-            if want_exc is not None and assigned(k) is not None and v == assigned(k):
+            if collected(k):
+                known_once(ctx, 'after the committed doInTransaction on a cache=False connection the instance of row %d held from '
+                           'before the call shows %s; the row holds %s' % (k, v, rows2.get(k)), desc, K_STALE_NC)
+            elif want_exc is not None and assigned(k) is not None and v == assigned(k):
                 known_once(ctx, 'after the rolled-back doInTransaction the instance of row %d that the body assigned to still '
                            'shows %s; the row holds %s' % (k, v, rows2.get(k)), desc)
             else:
@@ -583,7 +632,10 @@ def run_case(ctx, e, case, idx, model_out):
                                 'by %s) shows %s on the restored connection; the row holds %s' % (k, mode, v, rows2.get(k)), desc)
     for k, v in sorted(fresh.items()):
         if v != rows2.get(k):
-            if want_exc is not None and assigned(k) is not None and v == assigned(k):
+            if collected(k):
+                known_once(ctx, 'after the committed doInTransaction on a cache=False connection get(%d) shows %s; the row holds %s'
+                           % (k, v, rows2.get(k)), desc, K_STALE_NC)
+            elif want_exc is not None and assigned(k) is not None and v == assigned(k):
                 known_once(ctx, 'after the rolled-back doInTransaction get(%d) on the restored connection shows %s; the row '
                            'holds %s' % (k, v, rows2.get(k)), desc)
             else:
@@ -651,8 +703,10 @@ def overlapping_calls(ctx, e):
                     excs = {t: (None if raises[t] is None else (E_CLASSES if raises[t] == 'E' else K_CLASSES)[n % 4]('overlap %d' % n))
                             for t in (a, b)}
                     evs = ['e%d' % a, 'e%d' % b, 'l%d' % first, 'l%d' % second]
-                    desc = {'overlap': evs, 'ac': ac, 'raises': {str(t): raises[t] for t in (a, b)}}
-                    key = 'C08:overlap:%s:ac%s:%s' % ('-'.join(evs), ac, ''.join(str(raises[t] or '-') for t in (1, 2)))
+                    desc = {'overlap': evs, 'ac': ac, 'cache': e['variant'][0], 'declared': e['variant'][1],
+                            'raises': {str(t): raises[t] for t in (a, b)}}
+                    key = 'C08:overlap:%s:ac%s:cache%s:%s' % ('-'.join(evs), ac, e['variant'][0],
+                                                              ''.join(str(raises[t] or '-') for t in (1, 2)))
                     reset_db(e)
                     for w in workers:
                         w.pre = {}
@@ -724,7 +778,7 @@ def overlapping_calls(ctx, e):
 
 
 def line_for(case, idx):
-    cfg, ac, mode, word, ra, kind = case
+    cfg, ac, mode, word, ra, kind, var = case
     steps = concrete_steps(word)
     return '%s %s %s %s' % (cfg, ac, ','.join(step_token(s) for s in steps) or '-',
                             '-' if ra is None else '%d:%s:%d' % (ra, kind, 5 + idx % 90))
@@ -732,13 +786,15 @@ def line_for(case, idx):
 
 def run(ctx):
     e = env()
-    _known_seen[0] = 0
+    _known_seen.clear()
     cases = gen_cases(ctx)
     outs = ctx.model([line_for(c, i) for i, c in enumerate(cases)])
     for i, c in enumerate(cases):
         run_case(ctx, e, c, i, outs[i] if outs is not None else None)
-    repeated_calls(ctx, e)
-    overlapping_calls(ctx, e)
+    for var in (('1', 'e'), ('0', 'l')):
+        select_variant(e, *var)
+        repeated_calls(ctx, e)
+        overlapping_calls(ctx, e)
 
 
 def replay(case):
@@ -762,6 +818,7 @@ def replay(case):
         def oracle_fail(self, key, what, c):
             self.fails.append('%s: %s' % (key, what))
     d = Dummy()
+    select_variant(e, case.get('cache', '1'), case.get('declared', 'e'))
     if case.get('overlap'):
         overlapping_calls(d, e)
         want = '-'.join(case['overlap'])
@@ -770,9 +827,13 @@ def replay(case):
     if case.get('repeat'):
         repeated_calls(d, e, only=(case['cfg'], case['ac']))
         return not d.fails, '\n'.join(d.fails) or 'property holds on this case'
-    word = tuple(t.split('=')[0] for t in case['steps'])
+    if case.get('creates'):
+        word = tuple('c%d' % i for i in range(10, 10 + case['creates']))
+    else:
+        word = tuple(t.split('=')[0] for t in case['steps'])
     kind = None
     if case.get('exception'):
         kind = 'E' if case['exception'] in [c.__name__ for c in E_CLASSES] else 'K'
-    run_case(d, e, (case['cfg'], case['ac'], case.get('preloaded_by', 'get'), word, case['raise_after'], kind), 0, None)
+    run_case(d, e, (case['cfg'], case['ac'], case.get('preloaded_by', 'get'), word, case['raise_after'], kind,
+                    (case.get('cache', '1'), case.get('declared', 'e'))), 0, None)
     return not d.fails, '\n'.join(d.fails) or 'property holds on this case'
